@@ -160,7 +160,7 @@ PROPS = {
     },
     "C18": {
         'coq': 'Properties/C18.v',
-        'streams': ['loopadv'],
+        'streams': ['loopadv', 'apiorder'],
         'level_text': 'PARTIAL. C18_stopped_ends / C18_stop_request_ends / C18_dead_channel_is_error / C18_close_is_last prove the flag logic of get_next_read and the end of run_inner on the model. Wall-clock latency and the Arc reference count cannot be exhibited by the model; the correspondence run observes recv calls after the stop (0), Arc::strong_count (back to 1), the close call and the result.',
         'level_note': 'Coq kernel; no axioms; hand-written model of run_inner (src/run.rs), Datapath/Report (src/lib.rs) and Backend::next, with user callbacks and send failures as arbitrary oracles; tied to the code by running RunBuilder::run inline over a scripted Ipc with recording algorithms on the same histories (model and implementation logs compared after sorting hash-ordered DROP/INSTALL batches and renaming uids through the install messages). Assumes handles are used only inside the three callbacks.',
         'rule': 'structured random histories over 3 addresses x 4 flow ids: ready / create (9 algorithm names incl. prefixes, extensions, empty, 63 bytes) / measurement for live and dead flows / close / unknown, 1-4 messages per datagram (occasionally 10-14, exceeding the 1024-byte buffer), restarts, re-creates, receive errors, stop requests; 0-3 additional algorithms with duplicate names and absent instances, 6 table programs incl. a duplicate name and an uncompilable one; callbacks issue set_program/update_field/get_field lists; non-trivial = the script contains a stop request or starts stopped',
